@@ -445,7 +445,7 @@ func run(c *vf.Ctx) {
 	c.Floor("distinct (op, target state, result kind)", c.SeenCount("op_x_state_x_kind"), 45)
 	c.Floor("aliasing probes on filesystem backends", c.Counter("aliasing_probes_fs"), n*nFS)
 	c.Floor("Index() aliasing probes on a cold index cache (after reopen / external rewrite)", c.Counter("index_probes_on_cold_cache"), n*nFS/25)
-	c.Assume("only valid inputs: well-formed objects and packs, safe flat reference names (no nested names, symbolic refs only at HEAD - C15 covers those), configs derived from the stored config, fresh values passed in, returned values never mutated")
+	c.Assume("only valid inputs: well-formed objects and packs, safe flat reference names (no nested names, symbolic refs only at HEAD - C15 covers those), configs derived from the stored config; outside the aliasing probes values passed in are fresh and returned values are not mutated")
 	c.Assume("listings compared as sets; errors compared by kind (ok / not-found / changed / invalid / other)")
 	c.Assume("the model's conditional set on a missing reference answers not-found (the storer contract: old must match the stored value)")
 }
